@@ -332,3 +332,89 @@ func DebugLayout(c *core.Ctx) {
 		fmt.Printf("%-12s %s %s[%d:%d] -> %v\n", fe.fn.Name(), c.Position(fe.call.Pos()), fe.word, fe.hi, fe.lo, sortedKeys(fe.sinks))
 	}
 }
+
+// DebugEncodingSiblings prints VOP3 rows whose name differs from the VOP2 / VOP1 / VOPC row they re-encode.
+func DebugEncodingSiblings(c *core.Ctx) {
+	c.Load(instsPkg)
+	t := LoadInstTables(c)
+	ms, n := encodingSiblingMismatches(t)
+	for _, m := range ms {
+		fmt.Println(m)
+	}
+	fmt.Println(n, "pairs")
+}
+
+func baseMnemonic(n string) string {
+	n = strings.TrimSuffix(n, "_e32")
+	n = strings.TrimSuffix(n, "_e64")
+	return n
+}
+
+// encodingSiblingMismatches: in GCN3 / Vega the VOP3 encoding of a VOP2
+// instruction has opcode 256 + op, of a VOP1 instruction 320 + op, of a VOPC
+// instruction op itself.
+func checkEncodingSiblings(c *core.Ctx, t *InstTables) {
+	st := c.Rule("R04.15", "the two encodings of one vector instruction agree: a VOP3 row whose opcode is 256 + a VOP2 opcode, 320 + a VOP1 opcode or equal to a VOPC opcode carries the same mnemonic (modulo the _e32 / _e64 suffix) as that row, so that a word and its VOP3 re-encoding decode to the same instruction", 200)
+	mism, pairs := encodingSiblingMismatches(t)
+	st.Instances += pairs
+	for i := 0; i < pairs-len(mism); i++ {
+		st.Ob(true)
+	}
+	for _, m := range mism {
+		st.Ob(false)
+		c.Report(core.Finding{Rule: "R04.15", Pkg: instsPkg, Func: "initializeDecodeTable", Detail: "encoding-siblings:" + m, Msg: "the decode table gives the two encodings of one instruction different mnemonics: " + m})
+	}
+	st.Sample("%d (VOP2|VOP1|VOPC row, VOP3 row) pairs compared", pairs)
+}
+
+func encodingSiblingMismatches(t *InstTables) ([]string, int) {
+	pairs := 0
+	byKey := map[string]*InstRow{}
+	for _, r := range t.Rows {
+		if r.FromLoop {
+			continue
+		}
+		byKey[fmt.Sprintf("%s/%d", r.Format, r.Opcode)] = r
+	}
+	var out []string
+	for _, r := range t.Rows {
+		if r.FromLoop {
+			continue
+		}
+		var off int64
+		switch r.Format {
+		case "VOP2":
+			off = 256
+		case "VOP1":
+			off = 320
+		case "VOPC":
+			off = 0
+		default:
+			continue
+		}
+		for _, f3 := range []string{"VOP3a", "VOP3b"} {
+			if s, ok := byKey[fmt.Sprintf("%s/%d", f3, r.Opcode+off)]; ok {
+				pairs++
+				if baseMnemonic(s.Name) != baseMnemonic(r.Name) {
+					out = append(out, fmt.Sprintf("%s %d %s  <->  %s %d %s", r.Format, r.Opcode, r.Name, f3, s.Opcode, s.Name))
+				}
+			}
+		}
+	}
+	sort.Strings(out)
+	return out, pairs
+}
+
+func DebugEncodingSiblingsCount(c *core.Ctx) {
+	c.Load(instsPkg)
+	t := LoadInstTables(c)
+	n := map[string]int{}
+	for _, r := range t.Rows {
+		k := r.Format
+		if r.FromLoop {
+			k += "(loop)"
+		}
+		n[k]++
+	}
+	fmt.Println(n)
+}
